@@ -622,6 +622,9 @@ func main() {
 	r.Cases("wrapped-interop", r.N(1500, 60000), ev.Opt{HangViolation: true, MaxCaseSeconds: 120, Workers: 16}, wrappedCase)
 	r.Cases("long-args", r.N(500, 20000), hv, longCase)
 	r.Cases("named-types", r.N(2000, 60000), hv, namedCase)
+	r.Cases("stream/iv-carry", r.N(12, 120), ev.Opt{Workers: 6, MaxCaseSeconds: 300, HangViolation: true}, ivCarryCase)
+	r.Require("ivcarry_cases", 10)
+	r.Require("ivcarry_decrypts", 40)
 	r.Require("named_type_cases", 1500)
 	r.Require("wrapped_decrypted", 1200)
 	r.Require("wrapped_multi_line", 800)
